@@ -4,7 +4,8 @@ import hashlib, os, subprocess, sys, json, shutil, fcntl, time, glob
 
 VERIF = os.path.dirname(os.path.dirname(os.path.abspath(__file__)))
 REPO = os.environ.get("VERIF_REPO", "/repo")
-CACHE = os.path.join(VERIF, ".cache")
+CACHE = os.environ.get("VERIF_CACHE") or os.path.join(VERIF, ".cache")
+EVIDENCE = os.environ.get("VERIF_EVIDENCE") or os.path.join(VERIF, "evidence")
 DRIVER = os.path.join(VERIF, "mirfacts", "target", "release", "mirfacts")
 CORPUS = os.path.join(VERIF, "corpus")
 
